@@ -84,6 +84,12 @@ CLAIMED = {
          "size breadth-first, asn1c built from the working tree is run on each, and TLC validates the run: exit = 0 <=> Legal, rejection with a "
          "diagnostic and without output files, never a signal.",
          "TLA+ legality rules + TLC-enumerated module construction state machine + trace validation of compiler runs"),
+ "C09": ("model_checking", "7 C09",
+         "Asn1Types.tla gives constraint expressions a set-theoretic meaning (Sat) and derives the PER-visible (Eff) and OER-visible (OerEff) effective "
+         "constraints; MC_Constraints.tla checks on the model that the interval abstraction is sound for every expression, enumerates every expression "
+         "tree up to depth 2, and validates the ranges asn1c prints (-E -F -print-constraints) against Eff / OerEff; the layout the generated codecs "
+         "actually use is validated byte-exactly against the reference encoders on types built from expression trees (module VC).",
+         "TLA+ constraint semantics + TLC-enumerated expression trees + validation of printed ranges and codec octets"),
 }
 
 checks = []
